@@ -242,11 +242,12 @@ func c20PrePublish(m *message.Message) bool {
 // ---------------------------------------------------------------- publisher stacks
 
 type c20Pub struct {
-	mu       sync.Mutex
-	calls    int
-	closes   int
-	closeErr error
-	onPub    func(n int, topic string, msgs []*message.Message) error
+	mu        sync.Mutex
+	calls     int
+	closes    int
+	closeErr  error
+	closeErrs []error // if set: the k-th Close answers with the k-th entry (the last one repeats)
+	onPub     func(n int, topic string, msgs []*message.Message) error
 }
 
 func (p *c20Pub) Publish(topic string, msgs ...*message.Message) error {
@@ -261,6 +262,13 @@ func (p *c20Pub) Close() error {
 	p.mu.Lock()
 	defer p.mu.Unlock()
 	p.closes++
+	if len(p.closeErrs) > 0 {
+		k := p.closes - 1
+		if k >= len(p.closeErrs) {
+			k = len(p.closeErrs) - 1
+		}
+		return p.closeErrs[k]
+	}
 	return p.closeErr
 }
 
@@ -268,6 +276,13 @@ func (p *c20Pub) Close() error {
 type c20NamedPub struct{ *c20Pub }
 
 func (p c20NamedPub) String() string { return "named-scripted-publisher" }
+
+// answers of a wrapped publisher / subscriber to 1-3 successive Close calls, all different
+func c20CloseAnswers(rng *rand.Rand) []error {
+	all := []error{nil, errors.New("close error A"), errors.New("close error B")}
+	rng.Shuffle(len(all), func(i, j int) { all[i], all[j] = all[j], all[i] })
+	return all[:[]int{1, 1, 2, 2, 3}[rng.Intn(5)]]
+}
 
 type c20PObj struct {
 	msg    *message.Message
@@ -535,9 +550,7 @@ func (e *c20Env) runPubCase(rng *rand.Rand, concurrent bool) *c20PubCase {
 		return nil
 	}
 	inner := &c20Pub{}
-	if rng.Intn(3) == 0 {
-		inner.closeErr = errors.New("close error")
-	}
+	inner.closeErrs = c20CloseAnswers(rng)
 	inner.onPub = func(n int, topic string, msgs []*message.Message) error {
 		pc := callOf(msgs)
 		if pc == nil {
@@ -676,8 +689,13 @@ func (e *c20Env) runPubCase(rng *rand.Rand, concurrent bool) *c20PubCase {
 		}
 	}
 	c.Calls = calls
-	ret := pub.Close()
-	c.Close = []interface{}{inner.closes, e.err(inner.closeErr), e.err(ret)}
+	// Close is called 1-3 times; the wrapped publisher answers differently each time
+	rets := [][]interface{}{}
+	for k := range inner.closeErrs {
+		ret := pub.Close()
+		rets = append(rets, []interface{}{e.err(inner.closeErrs[k]), e.err(ret)})
+	}
+	c.Close = []interface{}{inner.closes, rets}
 	for _, o := range objs {
 		c.Final = append(c.Final, e.observeP(objs, idx, o.msg))
 	}
@@ -692,12 +710,13 @@ func (e *c20Env) runPubCase(rng *rand.Rand, concurrent bool) *c20PubCase {
 // ---------------------------------------------------------------- subscriber stacks
 
 type c20Sub struct {
-	mu       sync.Mutex
-	ch       chan *message.Message
-	done     chan struct{}
-	closes   int
-	closeErr error
-	subErr   error
+	mu        sync.Mutex
+	ch        chan *message.Message
+	done      chan struct{}
+	closes    int
+	closeErr  error
+	closeErrs []error // the k-th Close answers with the k-th entry (the last one repeats)
+	subErr    error
 	// a graceful Close: hands out these messages, waits until they are settled, only then ends the subscription
 	drain      []*message.Message
 	sent       []chan struct{}
@@ -736,7 +755,17 @@ func (s *c20Sub) Close() error {
 		close(s.done)
 		close(s.ch)
 	}
-	return s.closeErr
+	return s.closeAnswer(s.closes - 1)
+}
+
+func (s *c20Sub) closeAnswer(k int) error {
+	if len(s.closeErrs) == 0 {
+		return s.closeErr
+	}
+	if k >= len(s.closeErrs) {
+		k = len(s.closeErrs) - 1
+	}
+	return s.closeErrs[k]
 }
 func (s *c20Sub) emit(m *message.Message, d time.Duration) (ok bool) {
 	defer func() {
@@ -787,9 +816,7 @@ func (e *c20Env) runSubCase(rng *rand.Rand) *c20SubCase {
 	shapes := []string{"", "T", "M", "MM", "TM", "MT", "TT", "MMM", "TMM", "MTM", "MMT", "TMT", "TTM", "TTT"}
 	shape := shapes[rng.Intn(len(shapes))]
 	inner := newC20Sub()
-	if rng.Intn(3) == 0 {
-		inner.closeErr = errors.New("subscriber close error")
-	}
+	inner.closeErrs = c20CloseAnswers(rng)
 	var sub message.Subscriber = inner
 	if rng.Intn(2) == 0 {
 		sub = c20NamedSub{inner}
@@ -865,6 +892,15 @@ func (e *c20Env) runSubCase(rng *rand.Rand) *c20SubCase {
 	}
 	if closeAt >= nops {
 		ops = append(ops, []interface{}{"c"})
+	}
+	if rng.Intn(4) == 0 {
+		ops = append(ops, []interface{}{"s", rng.Intn(nobj), rng.Intn(2) == 0}) // settle after Close
+	}
+	for k := 1; k < len(inner.closeErrs); k++ { // Close again: every call must reach the wrapped subscriber
+		ops = append(ops, []interface{}{"c"})
+		if rng.Intn(3) == 0 {
+			ops = append(ops, []interface{}{"e", rng.Intn(nobj)})
+		}
 	}
 	if rng.Intn(3) == 0 {
 		// the first Close is a draining one: it hands out objects that are still unsettled (so the wrapped
@@ -986,7 +1022,7 @@ func (e *c20Env) runSubCase(rng *rand.Rand) *c20SubCase {
 			}
 			select {
 			case err := <-done:
-				c.CloseRet = append(c.CloseRet, []interface{}{e.err(inner.closeErr), e.err(err)})
+				c.CloseRet = append(c.CloseRet, []interface{}{e.err(inner.closeAnswer(len(c.CloseRet))), e.err(err)})
 			case <-time.After(tmo + 10*time.Second):
 				c.Problem = "Close of the decorated subscriber did not return"
 				return c
@@ -1001,7 +1037,7 @@ func (e *c20Env) runSubCase(rng *rand.Rand) *c20SubCase {
 			go func() { done <- sub.Close() }()
 			select {
 			case err := <-done:
-				c.CloseRet = append(c.CloseRet, []interface{}{e.err(inner.closeErr), e.err(err)})
+				c.CloseRet = append(c.CloseRet, []interface{}{e.err(inner.closeAnswer(len(c.CloseRet))), e.err(err)})
 			case <-time.After(10 * time.Second):
 				c.Problem = "Close of the decorated subscriber did not return"
 				return c
@@ -1211,6 +1247,119 @@ func (e *c20Env) runMwStack(rng *rand.Rand) *c20MwStackCase {
 		}()
 		if v, _ := msg.Context().Value(c20CtxKey{}).(int); v != k {
 			c.CtxKept = false
+		}
+	}
+	ht, err := c20Gather(reg, "w_handler_execution_time_seconds", []string{"handler_name", "success"})
+	if err != nil {
+		c.Problem = "gather: " + err.Error()
+	}
+	c.HTab = e.table(ht, 1, "true", "false")
+	return c
+}
+
+// overlapping invocations of a chain: "G" = a gate middleware at which an invocation parks until the
+// scenario releases it, so that invocations interleave between two applications of the metrics middleware
+type c20MwConcCase struct {
+	Stack   []string        `json:"stack"`
+	Scripts [][]int         `json:"scripts"` // per invocation: outcomes of its successive handler invocations
+	Order   []int           `json:"order"`   // the releases, in order (invocation numbers)
+	HTab    [][]interface{} `json:"htab"`
+	Problem string          `json:"problem,omitempty"`
+}
+
+func (e *c20Env) runMwConc(rng *rand.Rand) *c20MwConcCase {
+	shapes := [][]string{{"M", "G", "M"}, {"M", "M", "G"}, {"G", "M", "M"}, {"M", "G", "M", "G", "M"}, {"R1", "M", "G", "M"},
+		{"M", "G", "R1", "M"}, {"M", "G"}, {"M", "G", "M", "M"}, {"R2", "G", "M", "G", "M"}}
+	c := &c20MwConcCase{Stack: shapes[rng.Intn(len(shapes))], Order: []int{}}
+	n := 2 + rng.Intn(3)
+	for i := 0; i < n; i++ {
+		sc := []int{}
+		for k := 0; k < rng.Intn(4); k++ {
+			sc = append(sc, []int{0, 1, 1, 2}[rng.Intn(4)])
+		}
+		c.Scripts = append(c.Scripts, sc)
+	}
+	type event struct {
+		id     int
+		parked bool
+	}
+	events := make(chan event, 64)
+	release := make([]chan struct{}, n)
+	for i := range release {
+		release[i] = make(chan struct{})
+	}
+	idOf := func(msg *message.Message) int { i, _ := strconv.Atoi(msg.UUID); return i }
+	var mu sync.Mutex
+	pos := make([]int, n)
+	reg := prometheus.NewRegistry()
+	builder := metrics.NewPrometheusMetricsBuilder(reg, "w", "")
+	var h message.HandlerFunc = func(msg *message.Message) ([]*message.Message, error) {
+		id := idOf(msg)
+		mu.Lock()
+		mm := c20MwMsg{PanicV: pos[id] % 3}
+		if pos[id] < len(c.Scripts[id]) {
+			mm.Out = c.Scripts[id][pos[id]]
+		}
+		pos[id]++
+		mu.Unlock()
+		return c20Outcome(mm, msg.UUID, msg)
+	}
+	for i := len(c.Stack) - 1; i >= 0; i-- {
+		switch c.Stack[i] {
+		case "M":
+			h = builder.NewRouterMiddleware().Middleware(h)
+		case "G":
+			next := h
+			h = func(msg *message.Message) ([]*message.Message, error) {
+				id := idOf(msg)
+				events <- event{id, true}
+				<-release[id]
+				return next(msg)
+			}
+		case "R1":
+			h = middleware.Retry{MaxRetries: 1, InitialInterval: 50 * time.Microsecond}.Middleware(h)
+		default:
+			h = middleware.Retry{MaxRetries: 2, InitialInterval: 50 * time.Microsecond}.Middleware(h)
+		}
+	}
+	wait := func(id int) (parked bool, ok bool) {
+		select {
+		case ev := <-events:
+			if ev.id != id {
+				c.Problem = "an invocation moved that was not released"
+				return false, false
+			}
+			return ev.parked, true
+		case <-time.After(20 * time.Second):
+			c.Problem = "an invocation neither finished nor reached the next gate"
+			return false, false
+		}
+	}
+	parked := []int{}
+	for i := 0; i < n; i++ {
+		go func(i int) {
+			defer func() { recover(); events <- event{i, false} }()
+			h(message.NewMessage(strconv.Itoa(i), nil))
+		}(i)
+		p, ok := wait(i)
+		if !ok {
+			return c
+		}
+		if p {
+			parked = append(parked, i)
+		}
+	}
+	for len(parked) > 0 {
+		k := rng.Intn(len(parked))
+		id := parked[k]
+		c.Order = append(c.Order, id)
+		release[id] <- struct{}{}
+		p, ok := wait(id)
+		if !ok {
+			return c
+		}
+		if !p {
+			parked = append(parked[:k], parked[k+1:]...)
 		}
 	}
 	ht, err := c20Gather(reg, "w_handler_execution_time_seconds", []string{"handler_name", "success"})
@@ -1536,6 +1685,11 @@ func cmdC20(args []string) error {
 		stacks = append(stacks, e.runMwStack(rng))
 	}
 	res["mwstack"] = stacks
+	concs := []*c20MwConcCase{}
+	for i := 0; i < *n/2; i++ {
+		concs = append(concs, e.runMwConc(rng))
+	}
+	res["mwconc"] = concs
 	res["delay"] = c20DelayCases(rng, *n)
 	res["old_delay_picks"] = c20OldPicks
 	res["glue"] = e.glue()
